@@ -76,6 +76,12 @@ def custom_configs(tier):
         ("star-2-orbits", [1, 2], [star3], [lambda: ("s01", "s02")], [[0, 1]]),
         ("triangle+two-edge-path", [3, 3], [tri_tuple, path3],
          [lambda: ("3-clique",) * 3, lambda: ("p01", "p12")], [[0], [1]]),
+        # motif order differs from column order (motif 0 uses column 1 and vice versa)
+        ("triangle@col1+bare-edge@col0", [2, 3], [tri_tuple, bare_edge],
+         [lambda: ("3-clique",) * 3, lambda: "2-clique"], [[1], [0]]),
+        # orbits of one motif are not adjacent columns
+        ("diamond@cols0,2+bare-edge@col1", [2, 2, 2], [diamond5, bare_edge],
+         [lambda: ("outer", "outer", "outer", "outer", "inner"), lambda: "2-clique"], [[0, 2], [1]]),
     ]
     if tier == "thorough":
         cfgs += [
